@@ -19,6 +19,7 @@ import (
 	"sync"
 
 	"github.com/jf-tech/omniparser/idr"
+	"github.com/jf-tech/omniparser/transformctx"
 
 	"verifharness/cmd/c10/pipe"
 	"verifharness/vh"
@@ -36,7 +37,7 @@ type corpusCase struct {
 }
 
 func runOnce(c pipe.Case) pipe.Transcript {
-	comp, err := pipe.Compile(c.Schema)
+	comp, err := pipe.CompileV(c.Schema, c.Funcs)
 	if err != nil {
 		return pipe.Transcript{{Kind: "fatal", Msg: "schema rejected: " + err.Error()}}
 	}
@@ -126,6 +127,13 @@ func sameSchemaConcurrent(o *vh.Opts, r *vh.Rng, sum *vh.Summary, fmts []pipe.Fm
 			}
 		}
 	}
+}
+
+func withMsg(t pipe.Transcript, i int) interface{} {
+	if i >= 0 && i < len(t) {
+		return map[string]string{"k": t[i].Kind, "j": t[i].JSON, "s": t[i].Sum, "msg": t[i].Msg}
+	}
+	return nil
 }
 
 func entryAt(t pipe.Transcript, i int) interface{} {
@@ -231,7 +239,7 @@ func main() {
 		}
 	}
 
-	total := o.Count(300, 30000)
+	total := o.Count(260, 30000)
 	nproc := o.Count(20, 200)
 	if o.N > 0 {
 		nproc = 4
@@ -253,7 +261,15 @@ func main() {
 			}
 		}
 		var must []string
-		switch r.Pick(6) {
+		forcedDotted := false
+		switch r.Pick(9) {
+		case 6:
+			must = []string{"dotted-names"}
+			forcedDotted = true
+		case 7:
+			must = []string{"normalize"}
+		case 8:
+			must = []string{"flag-arg", "implicit-node"}
 		case 0:
 			must = []string{"js-throw"}
 		case 1, 2:
@@ -277,11 +293,16 @@ func main() {
 		}
 		cs := pipe.NewCase(f.Name, schema, in)
 		cs.Ext = pipe.GenExt(r.Pick)
+		if feats["normalize"] {
+			cs.Funcs = r.Pick(2) // which Extension binds the name normalize
+			sum.Hist(fmt.Sprintf("extension-variant:%d", cs.Funcs))
+		}
+		pipe.CheckVariant = cs.Funcs
 		cs2 := cs // the same schema and input under different externals
 		cs2.Ext = pipe.GenExt(r.Pick)
 		vh.Current(o, cs)
 		pipe.Watch(f.Name)
-		comp, err := pipe.Compile(schema)
+		comp, err := pipe.CompileV(schema, cs.Funcs)
 		if err != nil {
 			sum.Fail("generated schema rejected by NewSchema", map[string]string{"format": f.Name, "schema": schema}, err.Error())
 			continue
@@ -289,7 +310,7 @@ func main() {
 		dump1 := comp.DeclDump()
 		t1 := comp.RunReal(in, cs.Ext)
 		t2 := comp.RunReal(in, cs.Ext) // same Schema object, second transform
-		comp2, _ := pipe.Compile(schema) // schema loaded again: new random declaration hashes
+		comp2, _ := pipe.CompileV(schema, cs.Funcs) // schema loaded again: new random declaration hashes
 		t3 := comp2.RunReal(in, cs.Ext)
 		dump2 := comp2.DeclDump()
 		// random prefix of OTHER transforms (and a widely varying number of node acquisitions), then again
@@ -310,9 +331,9 @@ func main() {
 		tB := comp.RunReal(in, cs2.Ext)
 		tB2 := runOnce(cs2)
 		// two transforms read alternately (results retained): each must be its solo transcript
-		if len(history) > 0 {
+		if len(history) > 0 && c%2 == 0 {
 			other := history[r.Pick(len(history))]
-			if oc, err := pipe.Compile(other.Schema); err == nil {
+			if oc, err := pipe.CompileV(other.Schema, other.Funcs); err == nil {
 				solo := oc.RunReal(other.Input(), other.Ext)
 				i1, i2 := pipe.RunInterleaved(comp, in, cs.Ext, oc, other.Input(), other.Ext, r.Between(1, 3), r.Between(1, 3))
 				sum.Hist("interleaved-pairs")
@@ -354,10 +375,68 @@ func main() {
 		}
 		sum.Sample(map[string]interface{}{"case": cs, "features": feats.Keys(), "transcript": t1, "prefix_len": k})
 		for name, t := range map[string]pipe.Transcript{"second transform of the same Schema": t2, "schema loaded again": t3, "after a prefix of other transforms": t4} {
-			if !t1.Equal(t) {
-				sum.Fail("transcript differs: "+name+" (first difference at result "+fmt.Sprint(pipe.FirstDiff(t1, t))+")", cs,
-					map[string]interface{}{"first": t1, "other": t})
+			// runs of one implementation: the error texts of failing records are compared as well
+			if !t1.EqualMsg(t) {
+				i := pipe.FirstDiffMsg(t1, t)
+				sum.Fail("transcript differs: "+name+" (first difference at result "+fmt.Sprint(i)+")", cs,
+					map[string]interface{}{"first": withMsg(t1, i), "other": withMsg(t, i)})
 				break
+			}
+		}
+		// the same schema bytes loaded many more times: validated declaration tree (children = evaluation
+		// order) and transcript incl. error texts must not vary from load to load
+		if forcedDotted || c%10 == 0 {
+			nl := 3
+			if forcedDotted {
+				nl = 16 // about 1 load in 8 picks another order when the order is not pinned
+			}
+			for l := 0; l < nl; l++ {
+				cl, err := pipe.CompileV(schema, cs.Funcs)
+				if err != nil {
+					break
+				}
+				if d := cl.DeclDump(); d != dump1 {
+					sum.Fail("validated declaration tree (children order = evaluation order) differs between loads of the same schema bytes", cs,
+						map[string]string{"first": dump1, "load": d})
+					break
+				}
+				if tl := cl.RunReal(in, cs.Ext); !t1.EqualMsg(tl) {
+					i := pipe.FirstDiffMsg(t1, tl)
+					sum.Fail("transcript differs between loads of the same schema bytes (first difference at result "+fmt.Sprint(i)+")", cs,
+						map[string]interface{}{"first": withMsg(t1, i), "load": withMsg(tl, i)})
+					break
+				}
+			}
+			sum.Hist("repeated-schema-loads")
+		}
+		// ONE transformctx.Ctx object used for several NewTransform calls: the later transform must
+		// behave as with a Ctx of its own
+		if len(history) > 0 && c%2 == 1 {
+			other := history[r.Pick(len(history))]
+			if oc, err := pipe.CompileV(other.Schema, other.Funcs); err == nil {
+				shared := &transformctx.Ctx{ExternalProperties: cs.Ext}
+				_ = oc.RunRealCtx(shared, "earlier-input", other.Input())
+				ts := comp.RunRealCtx(shared, "in", in)
+				sum.Hist("shared-ctx-object")
+				if !t1.EqualMsg(ts) {
+					i := pipe.FirstDiffMsg(t1, ts)
+					sum.Fail("a transform started with a transformctx.Ctx object that an earlier NewTransform had used differs from the run with its own Ctx (first difference at result "+fmt.Sprint(i)+")", cs,
+						map[string]interface{}{"own_ctx": withMsg(t1, i), "shared_ctx": withMsg(ts, i), "earlier": other})
+				}
+			}
+		}
+		// the other Extension's binding of the same custom function name, used in between
+		if feats["normalize"] {
+			if ov, err := pipe.CompileV(schema, 1-cs.Funcs); err == nil {
+				pipe.CheckVariant = 1 - cs.Funcs
+				if bad := pipe.CheckOutputs(feats, cs.Ext, ov.RunReal(in, cs.Ext)); len(bad) > 0 {
+					sum.Fail("output relation violated (schema created with the other Extension): "+bad[0], cs, map[string]interface{}{"violations": bad})
+				}
+				pipe.CheckVariant = cs.Funcs
+				if ta := comp.RunReal(in, cs.Ext); !t1.EqualMsg(ta) {
+					sum.Fail("transcript differs after a schema created with another Extension (same custom function name, different function) ran", cs,
+						map[string]interface{}{"first": t1, "after": ta})
+				}
 			}
 		}
 		for _, e := range t1 {
@@ -404,6 +483,7 @@ func main() {
 	// ---- big cases: many declarations incl. ancestor-anchored objects, hundreds of records; the
 	// process-wide node ID counter at the start of the transform differs widely between the
 	// in-process runs and the fresh process each of them is compared with ----
+	pipe.CheckVariant = 0
 	nbig := o.Count(12, 200)
 	if o.N > 0 {
 		nbig = 3
